@@ -476,7 +476,7 @@ def main(argv=None):
         cex = o.get("cex")
         if o.get("replayed") is not None:  # bounded units replay on the real code themselves
             reproduced, detail = o.get("replayed"), o.get("detail")
-            d = os.path.join(VERIF, "replays", prop)
+            d = os.path.join(os.environ.get("PYVC_REPLAY_DIR") or os.path.join(VERIF, "replays"), prop)
             os.makedirs(d, exist_ok=True)
             path = os.path.join(d, re.sub(r"[^A-Za-z0-9_.#-]", "_", o["id"]) + ".json")
             json.dump(dict(property=prop, obligation=o["id"], counterexample=cex, replayed_on_real_code=reproduced,
